@@ -139,11 +139,14 @@ def e2e_case(case):
             else:
                 rec.ok(cls, ident)
         elif kind == "setup-loop":
-            L, = par
+            L = par[0]
             # setUp(): for i < (GAS & 7): s0 += 1  -- GAS is symbolic, so the loop condition is symbolic
             setup = ["GAS", ("PUSH", 7), "AND", "PUSH0", ("LABEL", "t"), "DUP2", "DUP2", "LT", "ISZERO", ("PUSHL", "e"), "JUMPI",
                      "PUSH0", "SLOAD", ("PUSH", 1), "ADD", "PUSH0", "SSTORE", ("PUSH", 1), "ADD", ("PUSHL", "t"), "JUMP", ("LABEL", "e"), "STOP"]
             test = ["PUSH0", "SLOAD", ("PUSH", 6), "EQ", ("PUSHL", "bad"), "JUMPI", "STOP", ("LABEL", "bad")] + e2e.panic(1)
+            if len(par) > 1 and par[1] == "one":
+                # ... and afterwards require(n >= L): the short exits revert, so exactly one setUp path survives the bound
+                setup = setup[:-1] + ["POP", ("PUSH", L), "DUP2", "LT", ("PUSHL", "rv"), "JUMPI", "STOP", ("LABEL", "rv"), "PUSH0", "PUSH0", "REVERT"]
             spec = e2e.Spec("SetupLoopT", fns=[("setUp()", setup), ("check_s0()", test)])
             o = e2e.run(spec, loop=L)
             r = o.result("check_s0")
@@ -243,6 +246,58 @@ def e2e_case(case):
                                   {"contract": nm, "line": o.line("check_dd"), "warnings": o.warnings})
                 else:
                     rec.ok(cls, f"{ident}/{nm}")
+        elif kind == "depth-second-test":
+            # two invariant tests of ONE contract; the same target function is cut by --depth with the invariant-breaking state
+            # behind the cut.  mode "deeper": the second test explores one level more than the first (new target calls, cut
+            # again); mode "same": both tests use the same depth, the second re-uses the cached frontier of the first
+            mode, = par
+            import halmos.__main__ as hm
+            from halmos.logs import warn as hwarn
+
+            long_ = []
+            for _ in range(200):
+                long_ += [("PUSH", 1), "POP"]
+            step = e2e.arg(0) + [("PUSH", 1), "EQ", ("PUSHL", "long"), "JUMPI", "PUSH0", "SLOAD", ("PUSH", 1), "ADD", "PUSH0", "SSTORE", "STOP",
+                                 ("LABEL", "long")] + long_ + [("PUSH", 50), "PUSH0", "SSTORE"]
+            tgt = e2e.Spec("Stepper", fns=[("step(uint256)", step), ("x()", ["PUSH0", "SLOAD", "PUSH0", "MSTORE", ("PUSH", 32), "PUSH0", "RETURN"])])
+            inv = e2e.ext_call([("PUSH", 0), "SLOAD"], "x()", static=True) + ["POP", ("PUSH", 0x80), "MLOAD", ("PUSH", 50), "EQ", ("PUSHL", "bad"),
+                                                                             "JUMPI", "STOP", ("LABEL", "bad")] + e2e.panic(1)
+            t = e2e.Spec("DepthTwoT", fns=[("setUp()", e2e.create_from_data("tgt", store_slot=0)), ("invariant_a()", inv), ("invariant_b()", list(inv))],
+                         data={"tgt": tgt.creation()}, devdoc={"invariant_a()": "--invariant-depth 1"} if mode == "deeper" else {})
+            real = hm.run_test
+
+            def marked(ctx):
+                hwarn(f"@@TEST {ctx.info.sig}")
+                return real(ctx)
+
+            hm.run_test = marked
+            try:
+                # (the default --invariant-depth is 2; given on the command line it would override the annotation of invariant_a)
+                o = e2e.run(t, others=(tgt,), depth=150)
+            finally:
+                hm.run_test = real
+            per, cur = {}, None
+            for lvl, m in o.warnings:
+                if m.startswith("@@TEST "):
+                    cur = m.split(" ", 1)[1].strip()
+                    per[cur] = []
+                elif cur is not None:
+                    per[cur].append(m)
+            for fn in ("invariant_a()", "invariant_b()"):
+                r = o.result(fn.split("(")[0])
+                flagged = any(w in m for m in per.get(fn, []) for w in FLAGS)
+                if r is None or fn not in per:
+                    rec.inconc(cls, f"{ident}/{fn}", f"no result / no marker ({o.exception!r})")
+                elif r.exitcode == 0 and not flagged:
+                    which = "first" if fn == "invariant_a()" else ("later-deeper" if mode == "deeper" else "cached-frontier")
+                    rec.violation(cls, f"depth-warning-missing/{which}-invariant-test",
+                                  f"DepthTwoT.{fn}: target calls step(1) of its call sequences are cut by --depth 150 with the "
+                                  "invariant-breaking state behind the cut, yet no 'incomplete execution' warning is logged while this test "
+                                  "runs and it passes" + ("" if fn == "invariant_a()" else
+                                                          " (the warning was logged once, while the previous test of the contract ran)"),
+                                  {"test": fn, "mode": mode, "line": o.line(fn.split("(")[0]), "warnings_per_test": per})
+                else:
+                    rec.ok(cls, f"{ident}/{fn}")
         elif kind == "setup-stuck":
             # setUp() stops on an unsupported opcode, in its own frame or inside a contract it calls
             where, = par
@@ -337,12 +392,12 @@ def main(run: common.Run):
     if not only or "B" in only:
         cases = [("test-loop", (K, L), tier) for K in (1, 2, 3, 4, 5) for L in (1, 2, 3)]
         cases += [("test-width", (W,), tier) for W in (1, 2, 3, 8)] + [("test-depth", (D,), tier) for D in (20, 60, 400)]
-        cases += [("test-unsupported", (), tier)] + [("setup-loop", (L,), tier) for L in (1, 2, 3)]
+        cases += [("test-unsupported", (), tier)] + [("setup-loop", (L,), tier) for L in (1, 2, 3)] + [("setup-loop", (L, "one"), tier) for L in (1, 2, 3)]
         cases += [("invariant-loop", (K, L, d), tier) for K in (1, 3, 5) for L in (1, 2, 6) for d in (1, 2)]
         cases += [("invariant-fn-loop", (order, L), tier) for order in (("set(uint256)", "mark()"), ("mark()", "set(uint256)")) for L in (1, 2, 3)]
         cases += [("stuck-unknown-solver", (rp,), tier) for rp in ("unknown", "garbage", "empty", "exit3")]
         cases += [("invariant-target-unsupported", (), tier), ("setup-stuck", ("own",), tier), ("setup-stuck", ("callee",), tier),
-                  ("depth-second-contract", (), tier)]
+                  ("depth-second-contract", (), tier), ("depth-second-test", ("deeper",), tier), ("depth-second-test", ("same",), tier)]
         for res in common.parallel_map(e2e_case, cases, 6):
             if res and res[0] == "error":
                 run.harness_error("worker crashed: " + res[1].strip().splitlines()[-1])
